@@ -14,6 +14,17 @@ CHECKS = {
         'note': TRUST + ' Not decided: heap growth of repeated reset/load (a quantity).',
         'technique': 'static analysis: strong-ownership type graph over rustc ADT definitions + who-may-construct call-graph rule',
     },
+    'C13': {
+        'text': 'Path rules over the MIR of continue_internal / add_error: every state list whose elements are handed to '
+                'ErrorHandler::error is emptied on every path from the delivery to return (no re-delivery); without a '
+                'handler nothing empties current_warnings (stays readable); the Err exit of the delivery block is reached '
+                'only with has_error() = true and never after a reset; add_error(is_warning=false) always passes '
+                'force_end and can_continue depends on has_error; add_error is the single producer of both lists. '
+                'These hold for every program and history at once; the suite never installs a handler and continues.',
+        'design_ref': 'DESIGN.md §4 C13',
+        'note': TRUST + ' Not decided: exact multiplicity of delivery across nested continues at run time.',
+        'technique': 'static analysis: MIR must-pass-through + guard-atom dataflow + field provenance',
+    },
 }
 
 NOT_APPLICABLE = {
